@@ -15,7 +15,7 @@ pub static ADMISSION: Scenario = Scenario {
     id: "C10",
     name: "c10-admission",
     run,
-    quick_runs: 5000,
+    quick_runs: 10_000,
     thorough_runs: 150_000,
     rule: "one run = a listener Network with connection limit in {none,0,1,2,3} and 3-6 dialer Networks; a sequential PRNG history of 4-25 steps (arrival, arrival of a dialer that vanishes right after TLS completes, repeated arrival of a connected peer, explicit outbound dial by the listener, background dial to a High-affinity peer, disconnect by either side, affinity change through KnownPeers at run time) checked step by step against the reference admission rule; fault-free configuration: connect is Ok iff the model admits and peers() equals the model after every step; lossy configuration: never over-admits; distinct = distinct order signature (step kind, affinity, count vs limit, outcome); non-trivial = a step where the limit or a Never/High/Allowed affinity decided",
     real: super::REAL_NET,
